@@ -3,6 +3,7 @@ package parse
 import (
 	"fmt"
 	"reflect"
+	"strings"
 )
 
 // Map converts a string representation of a map with concrete values as
@@ -14,6 +15,14 @@ func Map(s string, mapType reflect.Type) (reflect.Value, error) {
 
 	splitErr := splitMap(s,
 		func(newKeyStr, newValStr string) error {
+			// unquoted keys and values keep the blanks that follow them; only
+			// strings can mean them
+			if keyType.Kind() != reflect.String {
+				newKeyStr = strings.TrimSpace(newKeyStr)
+			}
+			if valType.Kind() != reflect.String {
+				newValStr = strings.TrimSpace(newValStr)
+			}
 			newKeyCast, err := String(newKeyStr, keyType)
 			if err != nil {
 				return fmt.Errorf("Error casting map key")
